@@ -37,17 +37,17 @@ Check C01_trace_sound : forall u P lg sol,
 From Resolvo Require Import Async.EncoderClosed.
 
 (* completeness of the encoder, for every provider, problem, cache contents,
-   trail history and sequence of encode requests: when it returns, everything
-   queued is completely encoded *)
-Theorem C01_encoder_complete : forall U P c fuel evs st,
-  enc_solve U P fuel (estate0 c) [] evs = Some st ->
+   trail history, sequence of encode requests and completion order of its
+   futures: once nothing is pending, everything queued is completely encoded *)
+Theorem C01_encoder_complete : forall U P c evs st,
+  enc_run U P (estate0 c) [] [] evs = Some (st, []) ->
   (forall so, In so (e_sols st) -> deps_done U P st [] so) /\ (forall n, In n (e_pkgs st) -> pkg_done U st n).
 Proof. exact enc_complete. Qed.
 
 (* hence an assignment that satisfies the encoder's clauses and selects only
    encoded solvables, one per package, is a valid solution *)
-Theorem C01_encoder_model_valid : forall U P, WF U -> forall c fuel evs st a S ex,
-  enc_solve U P fuel (estate0 c) [] evs = Some st ->
+Theorem C01_encoder_model_valid : forall U P, WF U -> forall c evs st a S ex,
+  enc_run U P (estate0 c) [] [] evs = Some (st, []) ->
   (forall x, In x (e_db st) -> sat_or_exempt U a ex x = true) ->
   (forall s, In s S <-> a (VSol s) = true) -> a VRoot = true ->
   In None (e_sols st) ->
@@ -58,8 +58,8 @@ Theorem C01_encoder_model_valid : forall U P, WF U -> forall c fuel evs st a S e
 Proof. exact enc_valid. Qed.
 
 (* the boolean evaluated on every run that returned a solution *)
-Theorem C01_encoder_final_closed : forall U P c fuel evs st S ex,
-  enc_solve U P fuel (estate0 c) [] evs = Some st ->
+Theorem C01_encoder_final_closed : forall U P c evs st S ex,
+  enc_run U P (estate0 c) [] [] evs = Some (st, []) ->
   enc_final_ok U st S ex = true -> one_per_nameb U S = true ->
   closedb U P (e_db st) S ex = true.
 Proof. exact enc_final_closed. Qed.
